@@ -138,6 +138,9 @@ Init == /\ pc = "start"
            \/ \E x \in {y \in SurplusCases : SurplusOK(y)} : c = Plain(x)
            \/ \E x \in ChainCases : c = Plain(x)
            \/ \E x \in {y \in ExtendNoneCases : ExtendNoneOK(y)} : c = Plain(x)
+           \* a non-zero fill_value for the width calls (first unit, first start, step attribute, 1-D): what the added samples hold
+           \/ \E x \in {y \in WidthCases : y.s = UnitList[1] /\ y.a4 = StartList[1] /\ y.src = "attr" /\ y.od = 0 /\ y.n \in {2, 3} /\ y.w > y.n} :
+                 \E f \in {-1, 7} : c = Plain(x @@ [fill |-> f])
            \/ \E x \in {y \in Base : DtypeSub(y)} : \E v \in DtypeVars(x.s) : c = Typed(IF "fill" \in DOMAIN x THEN [x EXCEPT !.fill = 0] ELSE x, v[1], v[2])
         /\ r = [R0 EXCEPT !.hi = c.n - 1]
 
